@@ -1,30 +1,72 @@
 import Tickit.Model.XTermDrv
+import Tickit.Model.XTermOut
 import Tickit.Gen.XTermFacts
+import Tickit.Gen.TermBuf
 import Tickit.Driver.Common
 /-
   Engine `xterm` (C09).
     new L C slrm colon rgb [vis blink] (slrm / vis / blink = DECRPM reply values 0..4 for modes 69 / 25 / 12)
     resize L C | goto l c | move d r | print <hex> | printn <hex> n | erasech n moveend | clear
     scroll top left lines cols downward rightward | setpen [bg=N] [rv=B] | chpen [bg=N] [rv=B]
-  Model observation: `<hex bytes> ret=<r>` (exactly what harness/xterm.c prints).
+    printf <hex> [d] | outbuf N | flush | pause | resume | stop | start
+  Model observation: `<hex bytes> ret=<r>` (exactly what harness/xterm.c prints); the bytes are those the OUTPUT
+  FUNCTION receives during the operation (Model/XTermOut.lean: the driver's bytes behind term.c's output buffer).
   SPEC verdict: the VT reference interpreter (Model/VT.lean) is run on the *implementation's* bytes from the screen
   state reached so far (which also follows the implementation's bytes), and the resulting screen is compared with
   the request's specification (`XTermDrv.Spec`): cell by cell over the whole screen, cursor, pending wrap, margins,
   SGR state, tokenizer back in the ground state, no control sequence unknown to the reference terminal.
   Requests outside the in-range contract of DESIGN.md Appendix C are compared byte for byte but not judged.
+
+  With an output buffer (`outbuf N`, N > 0) the terminal sees a request's bytes only when the buffer fills up or is
+  flushed.  The oracle then keeps the screen the requests issued so far ASK FOR (`want`, each request's specification
+  applied to it: a direct grid model of the requests, independent of the driver model) next to the screen the
+  reference terminal has reached on the bytes actually received, and compares the two at every point where the
+  library's interface promises that everything has been delivered (`flush`, `pause`, `stop`, and every operation of
+  an unbuffered terminal).  Whether a buffer is configured is known from the operations alone.
 -/
 namespace Tickit.Driver.XTermEngine
 open Tickit Tickit.Driver Tickit.XTermDrv Tickit.VT
 
 structure St where
   drv : Drv
+  /-- the reference terminal's screen after every byte the output function has received so far -/
   vt : VTState
   live : Bool
   /-- the reference terminal does not change DECLRMM on `CSI ? 69 h / l` (mode not recognised, or permanent) -/
   locked : Bool
+  /-- model of term.c's output layer (for the model observation only) -/
+  out : XTermOut.OutState
+  /-- size of the output buffer the operations have configured (0 = none) -/
+  bufN : Nat
+  /-- the interface promises that everything requested so far has reached the terminal -/
+  synced : Bool
+  /-- the screen the requests issued so far ask for (= `vt` while `synced`) -/
+  want : VTState
+  /-- the requested cursor position is determined (not after a scroll / `erasech … MAYBE`, whose specifications
+      leave the cursor free) -/
+  curKnown : Bool
+  /-- no request since the last synchronisation point was outside the in-range contract -/
+  valid : Bool
+  /-- control sequences unknown to the reference terminal since the last synchronisation point -/
+  unk : Nat
+  /-- between `pause` / `stop` and `resume` / `start`: the cached pen need not describe the terminal -/
+  paused : Bool
+  /-- the DECSLRM capability as the implementation last reported it -/
+  claim : Bool
+  /-- requested output was thrown away by a change of the output buffer while it was pending (outside the contract):
+      the terminal may be left inside a control sequence or with margins set, nothing can be demanded of the rest of
+      the history -/
+  dead : Bool
 
 instance : Inhabited St :=
-  ⟨{ drv := default, vt := VTState.init 0 0 (fun _ _ => default), live := false, locked := false }⟩
+  ⟨{ drv := default, vt := VTState.init 0 0 (fun _ _ => default), live := false, locked := false,
+     out := XTermOut.fresh 0, bufN := 0, synced := true, want := VTState.init 0 0 (fun _ _ => default),
+     curKnown := true, valid := true, unk := 0, paused := false, claim := false, dead := false }⟩
+
+/-- The version of the code the working tree contains (flags regenerated from the source on every run). -/
+def fx : Fixes :=
+  ⟨Gen.XTermFacts.scrollGuard, Gen.XTermFacts.eraseKeepsCount, Gen.XTermFacts.printnGuard,
+   Gen.TermBuf.term_resume_resends_pen⟩
 
 /-- Interpret the implementation's bytes on the reference terminal of this history: as `VT.run`, except that a
     terminal whose mode 69 is not recognised or permanent keeps its DECLRMM state (and, if that is "set", its
@@ -208,41 +250,158 @@ def parseObs (impl : String) : Option (List UInt8 × Int) :=
     else none
   | _ => none
 
+/-- Implementation observation `<hex> [closed=<k>] slrm=<c>` → bytes and the capability as reported. -/
+def parseObsSlrm (impl : String) : Option (List UInt8 × Bool) :=
+  match toks impl with
+  | h :: rest => do
+    let bs ← hexBytes? h
+    let c ← rest.find? (·.startsWith "slrm=")
+    some (bs, c == "slrm=1")
+  | _ => none
+
 def b01 (b : Bool) : String := if b then "1" else "0"
 
-def doRequest (st : St) (req : Request) (impl : String) : St × String × String :=
-  let (ret, bytes) := request ⟨Gen.XTermFacts.scrollGuard, Gen.XTermFacts.eraseKeepsCount, Gen.XTermFacts.printnGuard⟩ st.drv req
-  let mobs := s!"{bytesHex bytes} ret={b01 ret}"
+/-! ### The requests' specifications as a function on screens (the direct grid model of the requests) -/
+
+/-- The screen `req` asks for when the screen asked for so far is `w`; `known` = the requested cursor position is
+    determined.  `none`: the request is outside the in-range contract (nothing is demanded of it).  `ret` is the
+    value the implementation returned (a scroll may refuse; it must then leave the screen alone). -/
+def specApply (req : Request) (w : VTState) (known : Bool) (ret : Int) : Option (VTState × Bool) :=
+  match req with
+  | .goto l c =>
+    if (l = -1 ∨ (0 ≤ l ∧ l < w.lines)) ∧ (c = -1 ∨ (0 ≤ c ∧ c < w.cols)) then
+      some (Spec.goto l c w, known || (decide (l ≠ -1) && decide (c ≠ -1)))
+    else none
+  | .move d r =>
+    if known ∧ ¬ w.pendingWrap ∧ 0 ≤ w.row + d ∧ w.row + d < w.lines ∧ 0 ≤ w.col + r ∧ w.col + r < w.cols then
+      some (Spec.move d r w, true)
+    else none
+  | .print s n =>
+    match decodeUtf8 (s.take n) with
+    | none => none
+    | some cps =>
+      let cells := textCells cps
+      if known ∧ ¬ w.pendingWrap ∧ cps.all printable ∧ w.col + (cells.length : Int) ≤ w.cols then
+        if cells.length = 0 then some (w, true) else some (Spec.placeCells cells w, true)
+      else none
+  | .erasech n me =>
+    if known ∧ ¬ w.pendingWrap ∧ w.col + n ≤ w.cols then
+      if n < 1 then some (w, true)
+      else
+        let w1 := { w with grid := Spec.eraseGrid n w }
+        match me with
+        | .no => some (w1, true)
+        | .yes => if w.col + n < w.cols then some ({ w1 with col := w.col + n }, true) else some (w1, false)
+        | .maybe => some (w1, false)
+    else none
+  | .clear => some ({ w with grid := Spec.clearGrid w }, known)
+  | .scroll rect d r =>
+    if ret = 0 then some (w, known)
+    else if rect.lines ≥ 1 ∧ rect.cols ≥ 1 ∧ 0 ≤ rect.top ∧ rect.bottom ≤ w.lines ∧ 0 ≤ rect.left ∧ rect.right ≤ w.cols ∧
+            -rect.lines < d ∧ d < rect.lines ∧ -rect.cols < r ∧ r < rect.cols then
+      some ({ w with grid := Spec.scrollGrid rect d r w }, false)
+    else none
+
+/-- What the pen cache demands of the terminal's rendering attributes (`Spec.PenInv`), as a screen. -/
+def penApply (cache : PenCache) (w : VTState) : VTState :=
+  { w with bg := cache.bg.getD w.bg, rv := match cache.rv with | some v => v | none => w.rv }
+
+/-- Comparison at a synchronisation point: `vt'` is the reference terminal's screen on the bytes received, `want`
+    the screen asked for.  `attrs` / `modes`: also compare the rendering attributes / DECLRMM (not across a pause,
+    which may reset them). -/
+def syncCheck (st : St) (vt' : VTState) (want : VTState) (known : Bool) (unk : Nat) (attrs modes : Bool) : String :=
+  firstNonEmpty [
+    if vt'.ps ≠ .ground then "output ends inside an escape sequence" else "",
+    if ¬ Spec.marginsReset vt' then s!"margins left set: rows {vt'.top}..{vt'.bottom} cols {vt'.left}..{vt'.right}" else "",
+    if attrs ∧ (vt'.bg ≠ want.bg ∨ vt'.rv ≠ want.rv) then
+      s!"rendering attributes bg={vt'.bg} rv={vt'.rv}, requested bg={want.bg} rv={want.rv}" else "",
+    if modes ∧ vt'.declrmm ≠ want.declrmm then "DECLRMM changed" else "",
+    if modes ∧ st.claim ∧ ¬ st.paused ∧ vt'.declrmm = false then
+      "DECSLRM capability claimed but DECLRMM is reset (CSI Pl;Pr s is save-cursor there: a partial-width scroll would move cells outside its rectangle)" else "",
+    if ¬ (0 ≤ vt'.row ∧ vt'.row < vt'.lines ∧ 0 ≤ vt'.col ∧ vt'.col < vt'.cols) then "cursor outside the screen" else "",
+    if unk > 0 then s!"{unk} control sequence(s) unknown to the reference terminal" else "",
+    gridCheck vt' want.grid,
+    if known then cursorCheck vt' want.row want.col want.pendingWrap else ""]
+
+/-- State after a synchronisation point: the screen asked for is the screen reached. -/
+def resync (st : St) (vt' : VTState) : St :=
+  let v := vt'.compact
+  { st with vt := v, want := v, curKnown := true, valid := true, unk := 0, synced := true }
+
+/-- Run `f` on the model of the output layer and return what it delivers to the output function meanwhile. -/
+def emit (o : XTermOut.OutState) (f : XTermOut.OutState → XTermOut.Outcome) : XTermOut.OutState × Option (List UInt8) :=
+  match f { o with out := [] } with
+  | .ok o' => (o', some (XTermOut.delivered o'))
+  | _ => (o, none)
+
+def showDelivered (d : Option (List UInt8)) (rest : String) : String :=
+  match d with
+  | some bs => s!"{bytesHex bs} {rest}"
+  | none => "model-ub"
+
+/-- Common tail of every operation that is not judged on the spot: `want'` is the screen now asked for.  On an
+    unbuffered terminal the operation's bytes must have arrived, so this is a synchronisation point. -/
+def deferred (st : St) (vt' : VTState) (unk : Nat) (want' : VTState) (known' valid' : Bool) : St × String :=
+  if st.bufN = 0 then
+    let verdict := if valid' then syncCheck st vt' want' known' unk true true else ""
+    (resync st vt', verdict)
+  else
+    ({ st with vt := vt'.compact, want := want'.compact, curKnown := known', valid := valid', unk := unk, synced := false }, "")
+
+/-- A drawing request; `viaPrintf = some s`: it is `tickit_term_printf` with formatted result `s` (the request is
+    then `print s`). -/
+def doRequest (st : St) (req : Request) (viaPrintf : Option (List UInt8)) (impl : String) : St × String × String :=
+  let (ret, bytes) := request fx st.drv req
+  let (out', del) := emit st.out fun o => match viaPrintf with
+    | some s => XTermOut.printf o s
+    | none => XTermOut.send o bytes
+  let mobs := showDelivered del s!"ret={b01 ret}"
+  let st := { st with out := out' }
   match parseObs impl with
   | none => (st, mobs, "")     -- CRASH / malformed: the comparison reports it
   | some (ibytes, iret) =>
     let vt' := runOn st ibytes
-    let unk := unknownSeqs ibytes st.vt
-    let (verdict, inContract) := specCheck req st.vt vt' iret ibytes
-    let verdict := if verdict = "" ∧ inContract ∧ unk > 0 then s!"{unk} control sequence(s) unknown to the reference terminal" else verdict
-    ({ st with vt := vt'.compact }, mobs, verdict)
+    let unk := st.unk + unknownSeqs ibytes st.vt
+    if st.synced ∧ st.bufN = 0 then
+      -- unbuffered and up to date: judged on the spot against the screen actually reached
+      let (verdict, inContract) := specCheck req st.vt vt' iret ibytes
+      let verdict := if verdict = "" ∧ inContract ∧ unk > 0 then s!"{unk} control sequence(s) unknown to the reference terminal" else verdict
+      (resync st vt', mobs, verdict)
+    else
+      match (if st.valid then specApply req st.want st.curKnown iret else none) with
+      | some (w, k) => let (st', v) := deferred st vt' unk w k true; (st', mobs, v)
+      | none => let (st', v) := deferred st vt' unk st.want st.curKnown false; (st', mobs, v)
 
 def doPen (st : St) (isSet : Bool) (pen : PenReq) (impl : String) : St × String × String :=
   let (cache', bytes) := if isSet then setpen st.drv.caps st.drv.pen pen else chpen st.drv.caps st.drv.pen pen
-  let mobs := s!"{bytesHex bytes} ret=1"
-  let st1 := { st with drv := { st.drv with pen := cache' } }
+  let (out', del) := emit st.out fun o => XTermOut.send o bytes
+  let mobs := showDelivered del "ret=1"
+  let st1 := { st with drv := { st.drv with pen := cache' }, out := out' }
   match parseObs impl with
   | none => (st1, mobs, "")
   | some (ibytes, _) =>
     let vt' := runOn st ibytes
-    let unk := unknownSeqs ibytes st.vt
-    let verdict := firstNonEmpty [
-      if vt'.ps ≠ .ground then "output ends inside an escape sequence" else "",
-      if unk > 0 then s!"{unk} control sequence(s) unknown to the reference terminal" else "",
-      match cache'.bg with | some v => if vt'.bg = v then "" else s!"terminal background {vt'.bg}, pen background {v}" | none => "",
-      match cache'.rv with | some v => if vt'.rv = v then "" else s!"terminal reverse {vt'.rv}, pen reverse {v}" | none => "",
-      gridCheck vt' st.vt.grid,
-      cursorCheck vt' st.vt.row st.vt.col st.vt.pendingWrap]
-    ({ st1 with vt := vt'.compact }, mobs, verdict)
+    let unk := st.unk + unknownSeqs ibytes st.vt
+    if st.synced ∧ st.bufN = 0 then
+      let verdict := firstNonEmpty [
+        if vt'.ps ≠ .ground then "output ends inside an escape sequence" else "",
+        if unk > 0 then s!"{unk} control sequence(s) unknown to the reference terminal" else "",
+        if st.paused then "" else
+          match cache'.bg with | some v => if vt'.bg = v then "" else s!"terminal background {vt'.bg}, pen background {v}" | none => "",
+        if st.paused then "" else
+          match cache'.rv with | some v => if vt'.rv = v then "" else s!"terminal reverse {vt'.rv}, pen reverse {v}" | none => "",
+        gridCheck vt' st.vt.grid,
+        cursorCheck vt' st.vt.row st.vt.col st.vt.pendingWrap]
+      (resync st1 vt', mobs, verdict)
+    else
+      -- a pen change while the terminal is paused is not judged (the cache need not describe the terminal then)
+      let (st', v) := deferred st1 vt' unk (penApply cache' st.want) st.curKnown (st.valid && !st.paused)
+      (st', mobs, v)
 
 /-- `resize L C`: the emulator's window changes first (`VTState.resize`), then the library is told; the driver has
     nothing to send, the screen must stay as the resize left it, and `tickit_term_get_size` must report the new size
-    (which every later `scrollrect` decision has to be made with). -/
+    (which every later `scrollrect` decision has to be made with).  A resize while requested output may still be
+    buffered is outside the contract (the bytes would be interpreted on a screen they were not computed for). -/
 def doResize (st : St) (l c : Int) (impl : String) : St × String × String :=
   let st1 := { st with drv := { st.drv with lines := l, cols := c } }
   let mobs := s!"- size={l}x{c}"
@@ -250,20 +409,107 @@ def doResize (st : St) (l c : Int) (impl : String) : St × String × String :=
   match toks impl with
   | [h, sz] =>
     match hexBytes? h with
-    | none => ({ st1 with vt := vtr.compact }, mobs, "")
+    | none => (resync st1 vtr, mobs, "")
     | some ibytes =>
       let vt' := runOn { st with vt := vtr } ibytes
       let unk := unknownSeqs ibytes vtr
-      let verdict := if l < 1 ∨ c < 1 then "" else firstNonEmpty [
-        if sz = s!"size={l}x{c}" then "" else s!"terminal size reported as {sz} after a resize to {l}x{c}",
-        commonCheck vtr vt',
-        if unk > 0 then s!"{unk} control sequence(s) unknown to the reference terminal" else "",
-        gridCheck vt' vtr.grid,
-        cursorCheck vt' vtr.row vtr.col vtr.pendingWrap]
-      ({ st1 with vt := vt'.compact }, mobs, verdict)
-  | _ => ({ st1 with vt := vtr.compact }, mobs, "")
+      if st.synced then
+        let verdict := if l < 1 ∨ c < 1 then "" else firstNonEmpty [
+          if sz = s!"size={l}x{c}" then "" else s!"terminal size reported as {sz} after a resize to {l}x{c}",
+          commonCheck vtr vt',
+          if unk > 0 then s!"{unk} control sequence(s) unknown to the reference terminal" else "",
+          gridCheck vt' vtr.grid,
+          cursorCheck vt' vtr.row vtr.col vtr.pendingWrap]
+        (resync st1 vt', mobs, verdict)
+      else
+        ({ st1 with vt := vt'.compact, want := (st.want.resize l c (freshGrid c)).compact, valid := false, unk := st.unk + unk }, mobs, "")
+  | _ => (resync st1 vtr, mobs, "")
 
-def step (st : St) (ts : List String) (impl : String) : St × String × String :=
+/-- `flush` (`tickit_term_flush`): everything requested so far must have reached the terminal. -/
+def doFlush (st : St) (impl : String) : St × String × String :=
+  let (out', del) := emit st.out fun o => .ok (TermBuf.flush o)
+  let mobs := showDelivered del "ret=1"
+  let st1 := { st with out := out' }
+  match parseObs impl with
+  | none => (st1, mobs, "")
+  | some (ibytes, _) =>
+    let vt' := runOn st ibytes
+    let unk := st.unk + unknownSeqs ibytes st.vt
+    let verdict := if st.valid then syncCheck st vt' st.want st.curKnown unk true true else ""
+    (resync st1 vt', mobs, verdict)
+
+/-- `outbuf N` (`tickit_term_set_output_buffer`): changing the buffer while requested output may still be pending
+    is outside the contract (the interface's own proviso, as in C11: the pending bytes are dropped). -/
+def doOutbuf (st : St) (n : Nat) (impl : String) : St × String × String :=
+  let (out', del) := emit st.out fun o => .ok (TermBuf.setOutputBuffer o n)
+  let mobs := showDelivered del "ret=1"
+  let st1 := { st with out := out', bufN := n }
+  match parseObs impl with
+  | none => (st1, mobs, "")
+  | some (ibytes, _) =>
+    let vt' := runOn st ibytes
+    let unk := st.unk + unknownSeqs ibytes st.vt
+    if st.synced then
+      let verdict := syncCheck st vt' st.want st.curKnown unk true true
+      (resync st1 vt', mobs, verdict)
+    else
+      ({ st1 with vt := vt'.compact, unk := unk, valid := false, dead := true }, mobs, "")
+
+/-- `pause` (`tickit_term_pause`) / `stop` (`tickit_term_teardown`): a synchronisation point (both end with a
+    flush).  Screen content, cursor and margins are as the requests so far ask; the rendering attributes and the
+    modes may have been reset (they are the business of `resume` / `start`). -/
+def doPause (st : St) (stop : Bool) (impl : String) : St × String × String :=
+  let (out', del) := emit st.out fun o => if stop then TermBuf.termTeardown o else XTermOut.pause o
+  let mobs := showDelivered del "ret=1"
+  let st1 := { st with out := out' }
+  match parseObs impl with
+  | none => ({ st1 with paused := true }, mobs, "")
+  | some (ibytes, _) =>
+    let vt' := runOn st ibytes
+    let unk := st.unk + unknownSeqs ibytes st.vt
+    let verdict := if st.valid then syncCheck st vt' st.want st.curKnown unk false false else ""
+    ({ resync st1 vt' with paused := true }, mobs, verdict)
+
+/-- `resume` (`tickit_term_resume`): afterwards the terminal must again be what the driver takes it for — rendering
+    attributes as the cached pen says (`Spec.PenInv`), and DECLRMM set if the DECSLRM capability is (still) claimed
+    (`Spec.CapsOK`); screen content and cursor untouched. -/
+def doResume (st : St) (impl : String) : St × String × String :=
+  let (out', del) := emit st.out fun o => XTermOut.resume fx st.drv.caps st.drv.pen o
+  let mobs := showDelivered del s!"slrm={b01 st.drv.caps.slrm}"
+  let st1 := { st with out := out' }
+  match parseObsSlrm impl with
+  | none => ({ st1 with paused := false }, mobs, "")
+  | some (ibytes, islrm) =>
+    let vt' := runOn st ibytes
+    let unk := st.unk + unknownSeqs ibytes st.vt
+    let st2 := { st1 with paused := false, claim := islrm }
+    -- what resume asks for: the cached pen's attributes; DECLRMM whatever it is now, subject to the claim
+    let w := penApply st.drv.pen { st.want with rv := false }
+    if st.bufN = 0 then
+      let verdict := if st.valid then syncCheck st2 vt' { w with declrmm := vt'.declrmm } st.curKnown unk true true else ""
+      (resync st2 vt', mobs, verdict)
+    else
+      ({ st2 with vt := vt'.compact, want := { w with declrmm := vt'.declrmm }.compact, unk := unk, synced := false }, mobs, "")
+
+/-- `start` (`tickit_term_set_output_func` on a stopped terminal): the driver's start-up string again.  Like `new`,
+    not judged cell by cell (start-up clears the cursor's line); the screen asked for is the screen reached. -/
+def doStart (st : St) (impl : String) : St × String × String :=
+  let (out', del) := emit st.out fun o => TermBuf.setOutputFunc o
+  let mobs := showDelivered del s!"closed={XTermOut.closes out'} slrm={b01 st.drv.caps.slrm}"
+  let st1 := { st with out := out' }
+  match parseObsSlrm impl with
+  | none => ({ st1 with paused := false }, mobs, "")
+  | some (ibytes, islrm) =>
+    let vt' := runOn st ibytes
+    let unk := unknownSeqs ibytes st.vt
+    let verdict := firstNonEmpty [
+      if vt'.ps ≠ .ground then "start-up output ends inside an escape sequence" else "",
+      if unk > 0 then s!"{unk} start-up control sequence(s) unknown to the reference terminal" else "",
+      if ¬ Spec.marginsReset vt' then "margins set by start-up" else "",
+      if islrm ∧ vt'.declrmm = false then "DECSLRM capability claimed but DECLRMM is reset" else ""]
+    ({ resync st1 vt' with paused := false, claim := islrm }, mobs, verdict)
+
+def step1 (st : St) (ts : List String) (impl : String) : St × String × String :=
   match ts with
   | "new" :: l :: c :: slrm :: colon :: rgb :: more =>
     match ints? [l, c, slrm, colon, rgb], (if more = [] then some [1, 2] else ints? more) with
@@ -289,39 +535,50 @@ def step (st : St) (ts : List String) (impl : String) : St × String × String :
         if vt1.bg ≠ -1 ∨ vt1.rv then "start-up leaves rendering attributes set" else "",
         if slrm = 1 ∧ ¬ vt1.declrmm then "DECLRMM not enabled by start-up" else "",
         if implSlrm ∧ vt2.declrmm = false then s!"DECSLRM capability claimed but DECLRMM is reset (DECRPM reply ?69;{slrm}$y)" else ""]
-      ({ drv := drv, vt := vt2.compact, live := true, locked := modeLockedOfReply slrm.toNat }, mobs, verdict)
+      let v := vt2.compact
+      ({ drv := drv, vt := v, live := true, locked := modeLockedOfReply slrm.toNat,
+         out := XTermOut.fresh 0, bufN := 0, synced := true, want := v, curKnown := true, valid := true, unk := 0,
+         paused := false, claim := implSlrm, dead := false }, mobs, verdict)
     | _, _ => (st, "bad-op", "")
   | op :: rest =>
     if ¬ st.live then (st, "bad-op", "") else
     match op, rest with
     | "goto", [l, c] =>
       match ints? [l, c] with
-      | some [l, c] => doRequest st (.goto l c) impl
+      | some [l, c] => doRequest st (.goto l c) none impl
       | _ => (st, "bad-op", "")
     | "move", [d, r] =>
       match ints? [d, r] with
-      | some [d, r] => doRequest st (.move d r) impl
+      | some [d, r] => doRequest st (.move d r) none impl
       | _ => (st, "bad-op", "")
     | "print", [h] =>
       match hexBytes? h with
-      | some bs => doRequest st (.print bs bs.length) impl
+      | some bs => doRequest st (.print bs bs.length) none impl
       | none => (st, "bad-op", "")
     | "printn", [h, n] =>
       match hexBytes? h, n.toNat? with
-      | some bs, some n => if n ≤ bs.length then doRequest st (.print bs n) impl else (st, "bad-op", "")
+      | some bs, some n => if n ≤ bs.length then doRequest st (.print bs n) none impl else (st, "bad-op", "")
+      | _, _ => (st, "bad-op", "")
+    | "printf", [h] =>
+      match hexBytes? h with
+      | some bs => let s := XTermOut.formatted bs none; doRequest st (.print s s.length) (some s) impl
+      | none => (st, "bad-op", "")
+    | "printf", [h, d] =>
+      match hexBytes? h, d.toInt? with
+      | some bs, some d => let s := XTermOut.formatted bs (some d); doRequest st (.print s s.length) (some s) impl
       | _, _ => (st, "bad-op", "")
     | "erasech", [n, me] =>
       match ints? [n, me] with
-      | some [n, me] => doRequest st (.erasech n (MoveEnd.ofInt me)) impl
+      | some [n, me] => doRequest st (.erasech n (MoveEnd.ofInt me)) none impl
       | _ => (st, "bad-op", "")
-    | "clear", [] => doRequest st .clear impl
+    | "clear", [] => doRequest st .clear none impl
     | "resize", [l, c] =>
       match ints? [l, c] with
       | some [l, c] => doResize st l c impl
       | _ => (st, "bad-op", "")
     | "scroll", [t, l, n, c, d, r] =>
       match ints? [t, l, n, c, d, r] with
-      | some [t, l, n, c, d, r] => doRequest st (.scroll ⟨t, l, n, c⟩ d r) impl
+      | some [t, l, n, c, d, r] => doRequest st (.scroll ⟨t, l, n, c⟩ d r) none impl
       | _ => (st, "bad-op", "")
     | "setpen", ps =>
       match parsePen ps with
@@ -331,8 +588,21 @@ def step (st : St) (ts : List String) (impl : String) : St × String × String :
       match parsePen ps with
       | some p => doPen st false p impl
       | none => (st, "bad-op", "")
+    | "flush", [] => doFlush st impl
+    | "outbuf", [n] =>
+      match n.toNat? with
+      | some n => if n ≤ 1000000 then doOutbuf st n impl else (st, "bad-op", "")
+      | none => (st, "bad-op", "")
+    | "pause", [] => doPause st false impl
+    | "stop", [] => doPause st true impl
+    | "resume", [] => doResume st impl
+    | "start", [] => doStart st impl
     | _, _ => (st, "bad-op", "")
   | [] => (st, "bad-op", "")
+
+def step (st : St) (ts : List String) (impl : String) : St × String × String :=
+  let (st', mobs, verdict) := step1 st ts impl
+  (st', mobs, if st'.dead then "" else verdict)
 
 def engine : Engine := { σ := St, init := default, step := step }
 
